@@ -243,6 +243,23 @@ func runCheck(o *Options) int {
 
 	grounds := runGrounds(w, o)
 	lemmas := runLemmas(w, o, workDir)
+	// solver timeouts fall back to the bounded stand-in the contract names (if any, and if it passes):
+	// the obligation is then reported as bounded, never as proved and never as a violation
+	for _, ob := range obls {
+		if ob.Status != "unknown" || ob.enc == nil || ob.enc.c == nil {
+			continue
+		}
+		fb := ob.enc.c.Options["fallback"]
+		if fb == "" {
+			continue
+		}
+		for _, g := range grounds {
+			if g.Name == "bounded:"+fb && g.Status == "discharged" {
+				ob.Status, ob.Bounded = "discharged", true
+				ob.Backend = "solver gave no answer within the limit; bounded stand-in " + fb + " passed (" + g.Backend + ")"
+			}
+		}
+	}
 
 	rep := buildReport(w, o, encs, obls, grounds, lemmas, loadMs, start)
 	return rep.finish(w, o, start)
